@@ -299,6 +299,7 @@ func basePlans(tier string) []mc.Plan {
 			}
 		}
 	}
+	ps = append(ps, mc.Plan{Scen: slowMarshal(tiny), Bounds: []int{0, 1}})
 	for _, cfg := range cfgs {
 		for _, f := range firsts {
 			for _, v := range victims {
@@ -333,6 +334,60 @@ func basePlans(tier string) []mc.Plan {
 		}
 	}
 	return ps
+}
+
+// slowMarshal: a call is held inside its (user-supplied, slow) encoder after it has obtained its
+// stream; it is abandoned (soft cancel, the connection survives) and the next call starts on the
+// same connection with its multi-frame request parked in the transport after the first frame;
+// then the abandoned call's encoder finishes. Whatever it still does must not change what the
+// next call sends.
+func slowMarshal(cfg wl.Config) *mc.Scenario {
+	// call 0 is an ordinary completed call (the connection's buffers have been used once)
+	specs := []rpcSpec{{"U", "ok", "echo"}, {"U", "cancel", "echo"}, {"U", "ok", "echo"}}
+	name := fmt.Sprintf("slow-marshal[%s | call 0 completes ; abandoned call 1 held in its encoder ; call 2 parked after its first frame]", cfg)
+	body := func() {
+		env := wl.NewEnv(cfg, handlerFor(specs))
+		gate := &enc.Gate{}
+		ctx1, cancel1 := context.WithCancel(drpcmetadata.AddPairs(context.Background(), map[string]string{"owner": "B"}))
+		done := 0
+		vs.Go("caller0", func() { runRPC(env, 0, specs[0]); done++ })
+		sched.Quiesce()
+		vs.Go("caller1", func() {
+			req := enc.Payload(tagOf(1), 0, 0, enc.MinPayload)
+			var out []byte
+			err := env.Conn.Invoke(ctx1, "/r1", enc.Slow{G: gate}, &req, &out)
+			checkErr(env, 1, err)
+			sched.Observef("r1:%v", err == nil)
+			done++
+		})
+		sched.Quiesce()
+		wl.Cancel(cancel1)
+		sched.Quiesce()
+		env.Cli.StallAt = env.Cli.Writes() + 2
+		vs.Go("caller2", func() { runRPC(env, 2, specs[2]); done++ })
+		sched.Quiesce()
+		gate.Open()
+		sched.Quiesce()
+		env.Cli.Release()
+		sched.Quiesce()
+		if done != 3 {
+			env.Facts["hung"] = wl.BlockedSummary(sched.BlockedNow())
+		}
+		if pend, _ := env.Facts["pending"].([]string); len(pend) > 0 && !env.ConnClosed() {
+			env.Failf("%s", pend[0])
+		}
+		env.Teardown()
+	}
+	check := func(e *sched.Exec) string {
+		if m := wl.Basic(e); m != "" {
+			return m
+		}
+		if h, ok := wl.GetEnv(e).Facts["hung"]; ok {
+			return fmt.Sprintf("callers never finished; blocked=%v", h)
+		}
+		return ""
+	}
+	return &mc.Scenario{Name: name, Body: body, Check: check, Model: sched.Deviation, NoCache: true}
 }
 
 // plans adds, to every scenario, a twin explored relative to the reversed default schedule (a
